@@ -189,21 +189,25 @@ H.append({
 })
 
 # ---------------------------------------------------------------- end to end (extension paths)
+T = dict(AGGR_TIME=1000, ANCHOR_TIME=2000)
+E2E_QUICK = [inst("cal_head", GROUP=0, C04_EXT_DIRS=0), inst("cal_status", GROUP=0, EXCH=3),
+             inst("user_sametime", GROUP=1, AGGR_TIME=1000, ANCHOR_TIME=1000), inst("user_earlier", GROUP=1, AGGR_TIME=1000, ANCHOR_TIME=999),
+             inst("pubfile_earlier", GROUP=2, AGGR_TIME=1000, ANCHOR_TIME=999),
+             inst("user_neterr", GROUP=1, EXCH=1, **T), inst("pubfile_oom", GROUP=2, EXCH=2, **T)]
+# a successful exchange followed by all comparisons in one run: 2-4 min each (11.8M variables) - thorough tier only
+E2E_SLOW = [inst("user_l", GROUP=1, C04_EXT_DIRS=1, **T), inst("user_r", GROUP=1, C04_EXT_DIRS=0, AGGR_TIME=1000, ANCHOR_TIME=1001),
+            inst("pubfile_l", GROUP=2, C04_EXT_DIRS=1, AGGR_TIME=1000, ANCHOR_TIME=1000), inst("user_reqid", GROUP=1, EXCH=4, **T)]
 H.append({
     "name": "h_e2e", "src": "h_e2e.c", "env": ENV + ["ext_seam"], "tus": ["verification_rule", "signature", "hashchain", "hash", "publicationsfile", "types", "tlv"],
     "extra_src": ["x_net_real.c"], "global_defines": ["SB_INALG={0,0,0}", "SB_SIBALG={{0,0,0},{0,0,0},{0,0,0}}"],
     "unwind": 3, "unwindset": ["KSI_TLV_free:3", "Rule_verify.0:9", "Rule_verify:7", "KSI_List_free:2", "KSI_HashChainLink_free:2"], "timeout": 600, "mem_gb": 8, "object_bits": 12,
-    "restrict_fp": ["KSI_List_free.function_pointer_call.1/KSI_HashChainLink_free"], "cbmc_flags": ["--slice-formula"],
+    "cbmc_flags": ["--slice-formula"],     # no restrict_fp here: goto-instrument's pass makes the hasher's function pointers non-constant for symex
     "functions": ["Rule_verify", "calendarHashChainRule_cal", "userProvidedPublicationBasedRules", "publicationRecordRule_pubFile", "receiveCalendarHashChain",
                   "KSI_VerificationRule_UserProvidedPublicationExtendToPublication", "KSI_VerificationRule_UserProvidedPublicationHashMatchesExtendedResponse",
                   "KSI_VerificationRule_UserProvidedPublicationTimeMatchesExtendedResponse", "KSI_VerificationRule_UserProvidedPublicationExtendedSignatureInputHash",
                   "KSI_VerificationRule_PublicationsFileExtendToPublication", "KSI_VerificationRule_ExtendSignatureCalendarChainInputHashToHead"],
     "bound": "signature without calendar chain (one aggregation chain of one link), extender reply with status, request id and a chain of one link (direction concrete), user publication complete / publications file of one record; exchange outcome concrete per instance (success / network error / out of memory / extender status 0x101 / other request id); aggregation time and anchor time concrete for the publication based tables (later / equal / earlier anchor enumerated), all other times, imprints, the request id and the permission flag symbolic; premise: the aggregation chain aggregates (level in range)",
-    "instances": [inst("cal_head", GROUP=0, C04_EXT_DIRS=0), inst("user_l", GROUP=1, C04_EXT_DIRS=1, AGGR_TIME=1000, ANCHOR_TIME=2000), inst("user_r", GROUP=1, C04_EXT_DIRS=0, AGGR_TIME=1000, ANCHOR_TIME=1001),
-                  inst("user_sametime", GROUP=1, AGGR_TIME=1000, ANCHOR_TIME=1000), inst("user_earlier", GROUP=1, AGGR_TIME=1000, ANCHOR_TIME=999),
-                  inst("pubfile_l", GROUP=2, C04_EXT_DIRS=1, AGGR_TIME=1000, ANCHOR_TIME=1000), inst("pubfile_earlier", GROUP=2, AGGR_TIME=1000, ANCHOR_TIME=999),
-                  inst("user_neterr", GROUP=1, EXCH=1, AGGR_TIME=1000, ANCHOR_TIME=2000), inst("pubfile_oom", GROUP=2, EXCH=2, AGGR_TIME=1000, ANCHOR_TIME=2000),
-                  inst("cal_status", GROUP=0, EXCH=3), inst("user_reqid", GROUP=1, EXCH=4, AGGR_TIME=1000, ANCHOR_TIME=2000)],
+    "instances": E2E_QUICK, "thorough": {"instances": E2E_QUICK + E2E_SLOW, "timeout": 1800},
 })
 
 # ---------------------------------------------------------------- deprecated-algorithm rules
